@@ -1,0 +1,13 @@
+//go:build verif
+
+package driver
+
+// VerifHook, when set (only by verification harnesses built with -tags verif), is called at
+// the instrumented points of the driver with the name of the site.
+var VerifHook func(site string, arg uint64)
+
+func verifPoint(site string, arg uint64) {
+	if h := VerifHook; h != nil {
+		h(site, arg)
+	}
+}
